@@ -10,7 +10,7 @@
 
 /* ------------------------------------------------------------------ allocation / handle accounting */
 
-static long ALLOC_BAL, ALLOC_COUNT, FAIL_AT = -1, FILES_OPEN;
+static long ALLOC_BAL, ALLOC_COUNT, FAIL_AT = -1, FAIL_AT2 = -1, FILES_OPEN;
 static int TRACK;
 static int FAULT_FIRED;
 void *__real_malloc(size_t n);
@@ -25,7 +25,8 @@ int __real_fclose(FILE *f);
 static int alloc_should_fail(void)
 {
 	if (!TRACK) return 0;
-	if (ALLOC_COUNT++ == FAIL_AT) { FAULT_FIRED = 1; return 1; }
+	if (ALLOC_COUNT == FAIL_AT || ALLOC_COUNT == FAIL_AT2) { ++ALLOC_COUNT; FAULT_FIRED = 1; return 1; }
+	++ALLOC_COUNT;
 	return 0;
 }
 void *__wrap_malloc(size_t n) { void *p; if (alloc_should_fail()) return NULL; p = __real_malloc(n); if (p && TRACK) ++ALLOC_BAL; return p; }
@@ -326,7 +327,19 @@ static void execute(const ab_arc *a, int ai, int policy, vf_enum *e, const run_o
 		++OPS;
 		want = model_next(&m);
 		STEP(vf_mix(header_hash(h), ((uint64_t) (want + 1) << 8) | m.kind));
-		if (FAULT_FIRED) break;      /* after an allocation fault only safety and release are judged */
+		if (FAULT_FIRED) {
+			/* after an allocation fault only memory safety and the release balance are judged: the history goes on
+			 * (same actions per entry position) without the model */
+			int act;
+			if (!h) { if (++extra_next >= 3) break; continue; }
+			act = entries < ro->full_entries ? vf_choose(e, A_COUNT) : A_EXTRACT;
+			++entries;
+			if (entries > 40) break;
+			if (act >= A_R1 && act <= A_RALL) { static uint8_t bb[4096]; int q; for (q = 0; q < 3; ++q) { ++OPS; if (lha_reader_read(rd, bb, act == A_R1 ? 1 : act == A_R7 ? 7 : 4096) == 0) break; } }
+			else if (act == A_CHECK) { ++OPS; (void) lha_reader_check(rd, NULL, NULL); }
+			else if (act == A_EXTRACT) { ++OPS; (void) lha_reader_extract(rd, NULL, NULL, NULL); }
+			continue;
+		}
 		if ((h == NULL) != (want < 0)) {
 			vf_viol("c15-entry-sequence", "step %d: reader returned %s, model expects %s (entry %d kind %d)", entries, h ? "a header" : "end", want < 0 ? "end" : "an entry", want, m.kind);
 			break;
@@ -400,7 +413,6 @@ static void execute(const ab_arc *a, int ai, int policy, vf_enum *e, const run_o
 			break;
 		}
 		}
-		if (FAULT_FIRED) break;
 	}
 	lha_reader_free(rd);
 	lha_input_stream_free(st);
@@ -697,6 +709,21 @@ int main(int argc, char **argv)
 					execute(&ARCS[ai], ai, policy, &e1, &ro);
 				}
 				FAIL_AT = -1;
+				if (atoi(vf_extra("pairs", "0")) && K <= 60) {
+					/* every pair of failing allocations k1 < k2 (the count after the first fault may differ: k2 ranges over the fault-free count) */
+					long k1, k2;
+					for (k1 = 0; k1 < K; ++k1)
+					for (k2 = k1 + 1; k2 < K + 4; ++k2) {
+						vf_enum e1;
+						set_choices(&e1, idx, full);
+						vf_enum_begin(&e1);
+						FAIL_AT = k1; FAIL_AT2 = k2;
+						snprintf(VF.desc, sizeof VF.desc, "archive=%d policy=%d history=%s allocations %ld and %ld of %ld fail", ai, policy, hist_str(&e), k1, k2, K);
+						if (VF.cur) strcpy(VF.cur + 16, VF.desc);
+						execute(&ARCS[ai], ai, policy, &e1, &ro);
+					}
+					FAIL_AT = -1; FAIL_AT2 = -1;
+				}
 			}
 			vf_nontrivial(vf_mix(ai * 4 + policy, vf_hash(e.choice, sizeof(int) * (size_t) e.len, 0)));
 			vf_outcome(vf_mix(VF.transitions, ai));
